@@ -3,7 +3,7 @@ from .. import mgen
 
 ID = "C07"
 LEVEL = "exploration"
-RUNS = {"quick": 5000, "thorough": 50000}
+RUNS = {"quick": 6000, "thorough": 50000}
 RUN_ALARM = 900
 RULE = ("seeded task histories for nOS-V and/or Nanos6 processes with 1-4 threads: task types (jumbo), normal and parallel tasks, bodies "
         "executed, paused, resumed, ended, nested over paused (or, Nanos6, running) bodies, migrated between threads, resurrected, while "
@@ -75,10 +75,10 @@ def gen(rng, tier, idx):
 def run_sweep(case, ctx):
     import subprocess
     from .. import taskref
-    from ..framework import result, ihash
+    from ..framework import die_with_parent, result, ihash
     fa, fb = case["flags"]
     ref, paths = taskref.dfs_stream((fa, fb), case["depth"])
-    p = subprocess.run([ctx.build.aux("task_harness"), str(fa), str(fb), str(case["depth"])], stdout=subprocess.PIPE, stderr=subprocess.PIPE, timeout=600)
+    p = subprocess.run([ctx.build.aux("task_harness"), str(fa), str(fb), str(case["depth"])], stdout=subprocess.PIPE, stderr=subprocess.PIPE, timeout=600, preexec_fn=die_with_parent)
     got = p.stdout.decode(errors="replace").strip()
     info = {"sim_ns": 0, "ihash": ihash(case), "nontrivial": True, "evals": len(ref), "size": 1,
             "probes": {"task-module op attempts compared with the reference (bounded-exhaustive)": len(ref)},
